@@ -857,7 +857,10 @@ func (parser *Parser) parseOperand(depth int) (Sexp, error) {
 			return SexpEnd, err
 		}
 		if tok.typ == TokenEnd {
-			if depth == 0 {
+			// (an unfinished line comment is not flushed: it cannot
+			// be the operand, so the operator goes on waiting, and
+			// the rest of the comment may be in the next piece.)
+			if depth == 0 && !lexer.inLineComment() {
 				flushed, err := lexer.flushAtEnd()
 				if err != nil && err != ErrMoreInputNeeded {
 					return SexpEnd, err
